@@ -24,6 +24,9 @@ Transcribed (one `def` per C++ function, strings are `List Char`, one `Char` per
 * `processKey`         — `KeyParser::process_key` (:1151) for the call-backs start_parsing / stop_parsing / do_nothing / set_variable
 * `countKey`           — the `set_variable(); resize(count)` call-backs of the Interfile count keys (InterfileHeader.cxx:397-413, :453, :483;
                          MultipleDataSetHeader.cxx:72)
+* `segTablesOf`, `pdfsSegments` — the per-segment consistency checks of `InterfilePDFSHeader::post_processing`
+                         (src/IO/InterfileHeader.cxx:970-984) with `resize_segments_and_set` (:667) and the segment numbering of
+                         `find_segment_sequence` (:811)
 * `getline`, `readLine` — `std::getline` + `read_line` (KeyParser.cxx:70): trailing `\r`, continuation `\`; the loop
                          stops when nothing could be read (`if (!input) break;`), so a continuation backslash as last
                          byte of the input is simply dropped.  All loops of the model run on fuel; `Tag.diverges` /
@@ -33,7 +36,8 @@ Transcribed (one `def` per C++ function, strings are `List Char`, one `Char` per
                          `operator<<(ostream&, vector<T>)` (stream.inl:62)
 
 Not modelled: `${ENV}` substitution in `read_line`, floating point / unsigned / long values, arrays, coordinates,
-nested parsing objects (`PARSINGOBJECT`), `post_processing` of derived classes, 32-bit overflow of `vector::size()`.
+nested parsing objects (`PARSINGOBJECT`), `post_processing` of derived classes other than the per-segment checks of
+`InterfilePDFSHeader`, 32-bit overflow of `vector::size()`.
 `error()` (a C++ exception) is `Outcome.error`, with the state reached when it was thrown.
 
 Core Lean only (linked into the driver).
@@ -388,6 +392,49 @@ def KP.parseLine (p : KP) (line : Str) : Option KP := processLine p (p.keywordOf
 def countKey (cur : Int) (line : Str) : Option (Int × Nat) :=
   let n := (getIntParam line).getD cur
   if n < 0 then none else some (n, n.toNat)
+
+/-! ### per-segment tables of a projection-data header -/
+
+/-- conversion `int -> unsigned int` on x86-64 (`static_cast<unsigned int>(num_segments)`) -/
+def toU32 (v : Int) : Int := v % 4294967296
+
+/-- what `InterfilePDFSHeader::post_processing` (src/IO/InterfileHeader.cxx:957) looks at for the per-segment information -/
+structure SegTables where
+  numSegments : Int          -- `num_segments`: `matrix size[4]`, or -1 if `find_storage_order` never ran
+  minRD : List Int           -- `min_ring_difference`
+  maxRD : List Int           -- `max_ring_difference`
+  ringsPerSeg : List Int     -- `num_rings_per_segment` (the list in `matrix size[2]` / `[3]`)
+  deriving Repr, DecidableEq, Inhabited
+
+/-- `InterfilePDFSHeader::resize_segments_and_set` (InterfileHeader.cxx:667), the call-back of both ring-difference keys, for a
+    header whose `find_storage_order` (:681) succeeds with `S` segments and the axial-positions list `ax`: the first of the two
+    keys resizes BOTH lists to `S` (new elements 0) and each key then replaces its own list by the list on its line.  A list
+    whose key does not occur keeps the `S` zeros; if neither occurs `find_storage_order` never runs (`num_segments` stays -1). -/
+def segTablesOf (S : Int) (ax : List Int) (mn mx : Option (List Int)) : SegTables :=
+  match mn, mx with
+  | none, none => { numSegments := -1, minRD := [], maxRD := [], ringsPerSeg := [] }
+  | _, _ => { numSegments := S, minRD := mn.getD (List.replicate S.toNat 0), maxRD := mx.getD (List.replicate S.toNat 0),
+              ringsPerSeg := ax }
+
+inductive SegOutcome
+  | rejected                       -- `post_processing` returns true ("per-segment information is inconsistent")
+  | error                          -- `error("This data does not seem to contain segment 0")`
+  | ok (minSeg maxSeg : Int)       -- segment numbers `minSeg..maxSeg` are handed to the ProjDataInfo constructor
+  deriving Repr, DecidableEq, Inhabited
+
+/-- the three length checks of `InterfilePDFSHeader::post_processing` (InterfileHeader.cxx:970-984: `list.size() !=
+    static_cast<unsigned int>(num_segments)`) followed by the segment numbering of `find_segment_sequence` (:811): the sums
+    `min+max` are sorted, the segments with a negative sum get the negative numbers, the first non-negative sum has to be 0
+    (segment 0), otherwise `error()`.  (The sums are compared as `float`s with a tolerance of 1e-3: exact for |sum| < 2^24;
+    overflow of the `int` addition is not modelled.) -/
+def pdfsSegments (t : SegTables) : SegOutcome :=
+  if (t.minRD.length : Int) ≠ toU32 t.numSegments then .rejected
+  else if (t.maxRD.length : Int) ≠ toU32 t.numSegments then .rejected
+  else if (t.ringsPerSeg.length : Int) ≠ toU32 t.numSegments then .rejected
+  else
+    let sums := List.zipWith (· + ·) t.minRD t.maxRD
+    let neg := (sums.filter (· < 0)).length
+    if sums.any (· == 0) then .ok (-(neg : Int)) ((sums.length : Int) - 1 - neg) else .error
 
 /-! ### the stream: `std::getline`, `read_line` -/
 
